@@ -751,6 +751,103 @@ def shape_correspondence(rep, r, tier):
                                       'model %s vs implementation %s' % (json.dumps(a)[:200], json.dumps(got)[:200])))
 
 
+def guess_correspondence(rep, r, tier):
+    """get_shape without ordering keys: which key of sort_guesses is picked, acceptance and dims --
+    model (Stk.guessShape) vs implementation, on grids, sub-multisets and decoy keys"""
+    import dcmstack
+    drv = core.Driver()
+    n = {'quick': 120, 'thorough': 2000}[tier]
+    guesses = list(dcmstack.DicomStack.sort_guesses)
+    reqs, meta = [], []
+    for ci in range(n):
+        series = G.gen_series(r, tier, ordering=r.choice(['guess_vol', 'guess_file', 'guess_file']), V=1,
+                              T=r.choice([2, 2, 3, 4]))
+        if series['ordering'] not in ('guess_vol', 'guess_file'):
+            continue
+        files = copy.deepcopy(series['files'])
+        nvol = series['T']
+        # decoy candidates: other guess keys that are unique per file / per volume / partly missing /
+        # constant, and do or do not describe the same grid
+        for key in r.sample(['InversionTime', 'TriggerTime', 'AcquisitionNumber', 'FlipAngle', 'RepetitionTime'], r.randint(0, 3)):
+            pat = r.choice(['per_file_random', 'per_vol_ok', 'per_vol_wrong', 'missing_some', 'const'])
+            perm = list(range(len(files))); r.shuffle(perm)
+            for i, f in enumerate(files):
+                if pat == 'per_file_random':
+                    f['meta'][key] = float(100 + perm[i])
+                elif pat == 'per_vol_ok':
+                    f['meta'][key] = float(50 + 3 * f['t'])
+                elif pat == 'per_vol_wrong':
+                    f['meta'][key] = float(50 + (perm[i] % max(1, nvol)))
+                elif pat == 'missing_some':
+                    if i % 2:
+                        f['meta'][key] = float(7 + i)
+                    else:
+                        f['meta'].pop(key, None)
+                else:
+                    f['meta'][key] = 5.0
+            if key == 'AcquisitionNumber':
+                for f in files:
+                    if key in f['meta']:
+                        f['meta'][key] = int(f['meta'][key])
+        kind = r.choice(['complete', 'complete', 'drop', 'dup'])
+        if kind == 'drop' and len(files) > 1:
+            files.pop(r.randrange(len(files)))
+        elif kind == 'dup':
+            files.append(copy.deepcopy(r.choice(files)))
+        order = list(range(len(files)))
+        r.shuffle(order)
+        st, status = stack_from(series, files, order)
+        if any(x != 'ok' for x in status):
+            continue
+        base = model_tuples(st)                      # (0, 0, position, id) before any guess
+        cands = []
+        for key in guesses:
+            vals = [fi[0].get_meta(key) for fi in st._files_info]
+            present = sorted({v for v in vals if v is not None}, key=lambda z: (str(type(z)), z))
+            try:
+                present = sorted({v for v in vals if v is not None})
+            except TypeError:
+                pass
+            rank = {v: i for i, v in enumerate(present)}
+            cands.append([None if v is None else rank[v] for v in vals])
+        gfiles = [[0, 0, b[2], b[3], [c[i] for c in cands]] for i, b in enumerate(base)]
+        try:
+            shape = quiet(st.get_shape)
+            tvals = [fi[1][1] for fi in st._files_info]
+            ids_now = [t[3] for t in model_tuples(st)]
+            got = {'shape': list(shape)}
+            # which key do the sorting tuples carry now?
+            by_id = {}
+            for fi, t in zip(st._files_info, model_tuples(st)):
+                by_id[t[3]] = fi
+            match = [k for k, key in enumerate(guesses)
+                     if all(fi[0].get_meta(key) is not None and fi[0].get_meta(key) == fi[1][1] for fi in st._files_info)]
+            got['keys'] = match
+        except Exception as e:
+            got = type(e).__name__
+        reqs.append({'op': 'stack_guess', 'files': gfiles, 'ncands': len(guesses), 'num': 1, 'den': 25})
+        meta.append((series, kind, [f['id'] for f in files], got))
+        rep.evaluations += 1
+        rep.count('guess_corr/' + kind)
+        rep.nontriv(['guess_corr', ci, kind])
+    co = rep.corr.setdefault('stack_guess', {'cases': 0, 'agree': 0, 'disagree': 0, 'skipped': 0})
+    for a, (series, kind, ids, got) in zip(drv.ask(reqs), meta):
+        co['cases'] += 1
+        if a == 'invalid' or isinstance(got, str):
+            ok = (a == 'invalid') and (got == 'InvalidStackError')
+        else:
+            S, T, V = a['ok']
+            dims = got['shape'][2:] + [1] * (5 - len(got['shape']))
+            ok = (dims == [S, T, V]) and (a['key'] is None or a['key'] in got['keys'])
+            rep.count('guess_corr/key/%s' % (guesses[a['key']] if a['key'] is not None else 'none'))
+        if ok:
+            co['agree'] += 1
+        else:
+            co['disagree'] += 1
+            rep.disagreements.append(('stack_guess', 'stack:guess', {'series': series, 'kind': kind, 'files': ids},
+                                      'model %s vs implementation %s' % (json.dumps(a)[:200], json.dumps(got)[:200])))
+
+
 def flips_slice(st_fresh, order):
     import dcmstack
     if not order:
@@ -828,7 +925,8 @@ THEOREMS = {
     'C11': ['C11.getShape_ok_iff', 'C11.accept_count', 'C11.accept_positions', 'C11.accept_vector_blocks',
             'C11.accept_spacing', 'C11.refuse_empty', 'C11.refuse_not_factoring', 'C11.refuse_spacing',
             'C11.refuse_vector_count', 'C11.refuse_bad_volume', 'C11.f13_accepted', 'C11.f13_mixes_time',
-            'C11.accept_does_not_imply_one_time', 'C11.accept_complete', 'C11.accept_complete_order'],
+            'C11.accept_does_not_imply_one_time', 'C11.accept_complete', 'C11.accept_complete_order',
+            'C11.guess_ok_accepts', 'C11.guess_first', 'C11.guess_refuses', 'C11.guess_single_volume'],
     'C12': ['C12.sort_perm_invariant', 'C12.chkSort_perm_invariant', 'C12.step_spec', 'C12.run_inv',
             'C12.history_independent', 'C12.reverse_involutive'],
     'C20': ['C20.tm_colons_ignored', 'C20.tm_same_digits', 'C20.tm_instances', 'C20.tm_malformed',
@@ -969,6 +1067,7 @@ def main(pid, tier):
     if pid == 'C11':
         grid_round(rep, r, tier)
         shape_correspondence(rep, r, tier)
+        guess_correspondence(rep, r, tier)
     if pid == 'C12':
         hashseed_round(rep, tier)
         history_round(rep, r, tier)
